@@ -4,7 +4,7 @@
    rows are compared with the model enumeration as multisets (each assignment exactly once); composites / mixins are
    compared with the model applied to the child's recorded result. *)
 From Coq Require Import List ZArith QArith Qcanon Bool Arith.
-From Dimod Require Import Base.Util Model.Poly Model.HPoly Model.Samples Model.Comb Model.Feas Model.Solve.
+From Dimod Require Import Base.Util Model.Poly Model.HPoly Model.Samples Model.Comb Model.Feas Gen.Gen_ExactHoc Model.Solve.
 Import ListNotations.
 Open Scope Qc_scope.
 
@@ -71,7 +71,9 @@ Definition rows_perm (a b : list (list Qc)) : bool := (length a =? length b)%nat
 Definition zrows (l : list (list Z)) : list (list Qc) := map (map zq) l.
 
 Definition bits_rows (spin : bool) (l : list (list bool)) : list (list Qc) :=
-  map (map (fun b : bool => if b then 1 else if spin then - (1) else 0)) l.
+  (* ExactSolver.sample: samples = a*samples + b for SPIN (generated from the source) *)
+  map (map (fun b : bool => let x := if b then 1 else 0 in
+                            if spin then fst gen_spin_of_bit * x + snd gen_spin_of_bit else x)) l.
 
 (* the lowest reported energy is a lower bound of the energy over the whole model search space *)
 Definition lowest_is_min (e : sample -> Qc) (vars : list label) (space : list (list Qc)) (r : result) : bool :=
@@ -103,7 +105,8 @@ Inductive comp :=
 | KPass
 | KTruncU (agg : bool) (n : nat)
 | KTruncS (agg : bool) (n : nat)
-| KPolymorph (poly : hpoly) (poly_vars : list label) (red : list (label * label * label)) (keep discard : bool)
+| KPolymorph (poly : hpoly) (poly_vars : list label) (red : list (label * label * label))
+             (keep discard : option bool)      (* None = not passed: HigherOrderComposite.sample_poly's default *)
 | KScale (orig : hpoly) (scalar : option Qc) (bias_range : prange) (poly_range : option prange)
          (ign : list (list label)) (sent : hpoly)
 | KFixed (orig : hpoly) (fs : list (label * Qc)) (sent : hpoly)
@@ -140,6 +143,8 @@ Inductive case :=
             (init : list (list Qc)) (seen : option result)
 (* what the sample_ising / sample_qubo mixin of a composite handed to its own sample method *)
 | CEntry (n : nat) (qubo : bool) (h : list lterm) (J : list qterm) (observed : poly)
+(* PolyScaleComposite raises ZeroDivisionError exactly when the model says so *)
+| CScaleRaise (scalar : option Qc) (bias_range : prange) (poly_range : option prange) (raised : bool)
 | CStruct (nodes : list label) (edges : list (label * label)) (vars : list label) (quad : list (label * label))
           (rejected : bool) (child_calls : nat).
 
@@ -153,7 +158,10 @@ Definition check_comp (k : comp) (child res : result) : bool :=
       list_eqb Nat.eqb (r_labels m) (r_labels res) && qlist_eqb (r_energies m) (r_energies res) &&
       (length (r_rows res) =? length (r_energies res))%nat &&
       sub_multiset (combine (r_energies res) (r_rows res)) (combine (r_energies child) (r_rows child))
-  | KPolymorph poly pv red keep discard => res_equiv (polymorph poly pv red keep discard child) res
+  | KPolymorph poly pv red keep discard =>
+      let keep := match keep with Some b => b | None => gen_hoc_keep_penalty_variables end in
+      let discard := match discard with Some b => b | None => gen_hoc_discard_unsatisfied end in
+      res_equiv (polymorph poly pv red keep discard child) res
   | KScale orig scalar br prr ign sent =>
       let '(lr, pr) := polyscale_ranges br prr in
       dictlike_b orig &&
@@ -251,6 +259,12 @@ Definition check (c : case) : bool :=
       check_identity g num_reads (prob_energy pr) vars ls conv init seen
   | CEntry n qubo h J observed =>
       poly_coeff_eqb n (if qubo then from_qubo J else ising_poly h J) observed
+  | CScaleRaise scalar br prr raised =>
+      let '(lr, pr) := polyscale_ranges br prr in
+      match polyscale_call scalar lr pr [] [] with
+      | None => raised
+      | Some _ => negb raised
+      end
   | CStruct nodes edges vars quad rejected calls =>
       Bool.eqb (negb (structured nodes edges vars quad)) rejected &&
       (calls =? (if rejected then 0 else 1))%nat
